@@ -3,7 +3,7 @@ chain, bounded data-sized allocations, error discipline + explicit-panic audit o
 import re
 
 from blue import prim as P
-from blue.facts import callee_skey
+from blue.facts import callee_skey, strip_generics
 from . import common as K
 
 EXPLANATION = (
@@ -66,6 +66,7 @@ def rules(ctx):
     c094(ctx)
     c095(ctx)
     c096(ctx)
+    c097(ctx)
 
 
 def c091(ctx):
@@ -376,3 +377,73 @@ def c094(ctx):
     K.overflow_audit(ctx, R + "b", fns, OVERFLOW_EXC)
     ctx.instances.setdefault(R + "p", {"why": "", "sites": [], "matched": 0, "failed": 0})["why"] = \
         "explicit-panic audit over the same reach set (each exception names one construct in one function with its reason)"
+
+
+# ------------------------------------------------------------------------------------------------
+# C09.7 every self-describing structure decoded straight from file bytes and kept in the object handed to callers is covered by a checksum
+
+def crc_equal_edges(f):
+    """[(switch block, label of the edge on which a crc32c() result compared equal)]"""
+    out = []
+    for b in P.switch_blocks(f):
+        srcs = P.switch_cond_sources(f, b.idx)
+        if not any(s_["k"] == "call" and s_["callee"].endswith("crc32c") for s_ in srcs):
+            # the crc may be one operand of the comparison only
+            pass
+        cmpn = None
+        for s_ in srcs:
+            if s_["k"] == "bin" and s_["op"] in ("Eq", "Ne"):
+                names = K.src_names(f, s_["st"]["rv"]["a"]) | K.src_names(f, s_["st"]["rv"]["b"])
+                if "crc32c()" in names:
+                    cmpn = s_["op"]
+            elif s_["k"] == "call" and re.search(r"::(eq|ne)$", s_["callee"]) and len(s_["t"]["args"]) == 2:
+                names = K.src_names(f, s_["t"]["args"][0]) | K.src_names(f, s_["t"]["args"][1])
+                if "crc32c()" in names:
+                    cmpn = "Eq" if s_["callee"].endswith("eq") else "Ne"
+        if cmpn is None:
+            continue
+        negs = sum(1 for x in srcs if x["k"] == "un" and x["op"] == "Not")
+        eq_true = (cmpn == "Eq") != bool(negs % 2)
+        out.append((b.idx, "sw:1" if eq_true else "sw:0"))
+    return out
+
+
+def c097(ctx):
+    R = "C09.7"
+    ctx.declare(R, "a message decoded from bytes just read from a file and kept in the object a constructor returns is covered by a checksum comparison")
+    n = 0
+    for f in sorted(ctx.prog.fns.values(), key=lambda f: f.skey):
+        if f.crate not in ("sst", "mani") or f.kind == "Closure" or not f.impl_self:
+            continue
+        reads = P.call_points(f, r"FileExt::read_exact_at$|io::Read::read_exact$|as std::io::Read>::read_exact$")
+        if not reads:
+            continue
+        self_ty = strip_generics(f.impl_self)
+        srcs0 = P.origins(f, {"k": "copy", "pl": {"l": 0, "p": []}})
+        if not any(s_["k"] == "agg" and s_.get("adt") and strip_generics(s_["adt"]) == self_ty for s_ in srcs0):
+            continue      # not a constructor
+        kept = set()
+        for a_ in srcs0:
+            if a_["k"] == "agg" and a_.get("adt") and strip_generics(a_["adt"]) == self_ty:
+                for o_ in a_["st"]["rv"]["ops"]:
+                    kept |= {s_["pt"] for s_ in P.origins(f, o_) if s_["k"] == "call" and re.search(r"buffertk::Unpacker::unpack$|Unpackable>::unpack$", s_["callee"])}
+        for b, t in f.calls():
+            pt = P.term_pt(f, b.idx)
+            if pt not in kept:
+                continue
+            tys = re.findall(r"(?<![\w:])((?:sst|mani)::[\w:]+)", str(t.get("ga") or ""))
+            if not tys or P.order(f, reads, [pt]):
+                continue
+            ty = tys[-1]
+            n += 1
+            eq = crc_equal_edges(f)
+            uneq = set()
+            for bb, lab in eq:
+                uneq |= {(bb, l_) for l_, _s in f.blocks[bb].succs if l_ != lab}
+            q = P.reach(f, P.after(f, pt), P.return_points(f), avoid=set(P.error_points(f)), avoid_edges=uneq) if eq else [pt[0]]
+            gated = bool(eq) and all(P.reach(f, P.after(f, pt), P.return_points(f), avoid=set(P.error_points(f)), avoid_edges={(bb, lab)} | uneq) is None for bb, lab in eq[:1])
+            ctx.check(R, f, "decoded-without-checksum:" + ty.rsplit("::", 1)[-1], gated,
+                      "%s is kept only after a CRC over its bytes compared equal" % ty,
+                      "%s reads bytes from the file, decodes a %s from them and keeps it in the object it returns with no checksum comparison: a flipped bit "
+                      "in one of its scalar fields (setsum, smallest / biggest timestamp) is handed to callers as genuine metadata" % (f.skey, ty), pt=pt)
+    ctx.floor(R, "messages decoded from file bytes and kept by a constructor", n, 1)
